@@ -1351,3 +1351,14 @@ V("rf-c17-peeled-rem-from-zero", "C17", "fire", UT, _C17_LOOP, _c17_peeled("    
 V("rf-c17-peeled-rem-unshuffled", "C17", "fire", UT, _C17_LOOP, _c17_peeled("        for i, ratio in zip(range(n_folds - 1), ratios):\n", rem="data[0][start:]"), rule=None, what="remainder from another array")
 V("rf-c17-peeled-rem-in-loop", "C17", "fire", UT, _C17_LOOP, _c17_peeled("        for i, ratio in zip(range(n_folds - 1), ratios):\n").replace("        folds[n_folds - 1].append", "            folds[n_folds - 1].append"), rule=None, what="remainder appended in every iteration")
 V("rf-c17-peeled-dict-minus-one", "C17", "fire", UT, _C17_LOOP, _c17_peeled("        for i, ratio in zip(range(n_folds - 1), ratios):\n", last="folds[-1]"), rule="FLOW.destination", what="key -1 of a dict of folds: KeyError")
+
+# ------------------------------------------------------------------------------- C16, comprehension forms (refactor round)
+_C16_VS = "    vstructs = []\n    for c in colliders:\n        for (i, j) in itertools.combinations(pa(c, A), 2):\n            if A[i, j] == 0 and A[j, i] == 0:\n                # Ordering might be defensive here, as\n                # itertools.combinations already returns ordered\n                # tuples; motivation is to not depend on their feature\n                vstruct = (i, c, j) if i < j else (j, c, i)\n                vstructs.append(vstruct)\n"
+_C16_EW = "    edges = list(zip(fro, to))\n    weights = [W[i, j] for i, j in edges]\n    edge_weights = dict(zip(edges, weights))\n    return edge_weights\n"
+V("rf-c16-vs-comprehension", "C16", "silent", UT, _C16_VS, "    vstructs = [(i, c, j) if i < j else (j, c, i)\n                for c in colliders\n                for (i, j) in itertools.combinations(pa(c, A), 2)\n                if A[i, j] == 0 and A[j, i] == 0]\n", what="nested loops as one comprehension")
+V("rf-c16-vs-comprehension-oneline", "C16", "silent", UT, _C16_VS, "    vstructs = [(i, c, j) if i < j else (j, c, i) for c in colliders for (i, j) in itertools.combinations(pa(c, A), 2) if A[i, j] == 0 and A[j, i] == 0]\n", what="the same on one line (two loops on one line number)")
+V("rf-c16-vs-comprehension-one-sided", "C16", "fire", UT, _C16_VS, "    vstructs = [(i, c, j) if i < j else (j, c, i)\n                for c in colliders\n                for (i, j) in itertools.combinations(pa(c, A), 2)\n                if A[i, j] == 0]\n", rule="VS", what="comprehension form, adjacency tested in one direction only")
+V("rf-c16-vs-comprehension-unordered", "C16", "fire", UT, _C16_VS, "    vstructs = [(i, c, j)\n                for c in colliders\n                for (i, j) in itertools.permutations(pa(c, A), 2)\n                if A[i, j] == 0 and A[j, i] == 0]\n", rule="VS", what="comprehension form, both orders reported", accept_inconclusive=True)
+V("rf-c16-ew-dictcomp", "C16", "silent", UT, _C16_EW, "    return {(i, j): W[i, j] for (i, j) in zip(fro, to)}\n", what="dict comprehension")
+V("rf-c16-ew-dictcomp-transposed", "C16", "fire", UT, _C16_EW, "    return {(i, j): W[j, i] for (i, j) in zip(fro, to)}\n", rule="PW", what="dict comprehension reading the transposed entry")
+V("rf-c16-ew-dictcomp-swapped-key", "C16", "fire", UT, _C16_EW, "    return {(j, i): W[i, j] for (i, j) in zip(fro, to)}\n", rule="PW", what="dict comprehension with swapped key", accept_inconclusive=True)
